@@ -177,3 +177,128 @@ def check_run(run):
         ok_pos = False
     return ok_sh and ok_pos, {"dir": run[0][0], "data": run[0][1], "shifts": shifts, "expected_shifts": exp,
                               "byte_positions": poss}
+
+
+# ---------------------------------------------------------------------------
+# value tables: what the sequence computes, not only how it is spelled
+
+TEST_BYTES = (0x01, 0x7f, 0x80, 0xff)
+
+
+def _dest_bits(run):
+    """(bits, signed) of the data variable of a load run, from the type of the assigned lvalue"""
+    s = A.strip(run[0][4])
+    lhs = A.kids(s)[0]
+    ct = FD.ctype(A.qtype(lhs))
+    if ct[0] == "int":
+        return ct[1], ct[2]
+    return None, None
+
+
+def eval_load_run(run):
+    """Evaluate the statements of a load run for byte patterns (one hot byte from TEST_BYTES, all-0x80, all-0xff).
+    -> list of mismatches {bytes, got, expected}; raises FD.Unknown when not evaluable."""
+    n = len(run)
+    bits, signed = _dest_bits(run)
+    if bits is None:
+        raise FD.Unknown("destination of the byte sequence is not an integer", run[0][4])
+    stmts = []
+    for o in run:
+        if not stmts or stmts[-1] is not o[4]:
+            stmts.append(o[4])
+    patterns = []
+    for i in range(n):
+        for b in TEST_BYTES:
+            p = [0] * n
+            p[i] = b
+            patterns.append(p)
+    patterns.append([0x80] * n)
+    patterns.append([0xff] * n)
+    patterns.append(list(range(0x81, 0x81 + n)))
+    bad = []
+    s0 = A.strip(stmts[0])
+    lhs = A.kids(s0)[0]
+    for p in patterns:
+        feed = list(p)
+        explicit = all(isinstance(o[3], int) for o in run)
+        base = run[0][3] if explicit else 0
+
+        def hook(node, ev, feed=feed, p=p, explicit=explicit, base=base):
+            pos = _byte_access(node) if node.get("kind") in ("UnaryOperator", "CallExpr") else None
+            if pos is None:
+                return NotImplemented
+            # the byte arrives with the C type of the access expression (a `char` accessor sign-extends 0x80..0xff)
+            ct = FD.ctype(A.qtype(node))
+            if pos == "seq":
+                if not feed:
+                    raise FD.Unknown("more byte reads than bytes", node)
+                b = feed.pop(0)
+            else:
+                k = pos - base
+                if not (0 <= k < len(p)):
+                    raise FD.Unknown("byte position outside the sequence", node)
+                b = p[k]
+            return FD.wrap(b, ct) if ct[0] == "int" else b
+        ev = FD.Eval(node_hook=hook)
+        key, _ = ev._lv(lhs)
+        ev.env[key] = 0
+        for st in stmts:
+            ev.run(st)
+        got = ev.env[key]
+        exp = 0
+        for b in p:
+            exp = (exp << 8) | b
+        exp = FD.wrap(exp, ("int", bits, signed))
+        if n * 8 < bits:
+            # a shorter field read into a wider variable: must not sign-extend
+            exp = sum(b << (8 * (n - 1 - i)) for i, b in enumerate(p))
+            exp = FD.wrap(exp, ("int", bits, signed))
+        if got != exp:
+            bad.append({"bytes": ["%02x" % b for b in p], "got": "%x" % (got & ((1 << bits) - 1)), "expected": "%x" % (exp & ((1 << bits) - 1))})
+    return bad, len(patterns)
+
+
+def eval_store_run(run):
+    """Evaluate the stored byte of every statement of a store run for several values of the data variable."""
+    n = len(run)
+    s0 = A.strip(run[0][4])
+    # find the data variable node inside the first statement's RHS
+    dv = None
+    for x in A.walk(A.kids(s0)[1]):
+        if x.get("kind") == "DeclRefExpr" and A.src(x) == run[0][1]:
+            dv = x
+            break
+    if dv is None:
+        raise FD.Unknown("data variable of the store sequence not found", run[0][4])
+    ct = FD.ctype(A.qtype(dv))
+    if ct[0] != "int":
+        raise FD.Unknown("data variable is not an integer", dv)
+    bits = ct[1]
+    vals = []
+    for i in range(n):
+        for b in TEST_BYTES:
+            vals.append(b << (8 * (n - 1 - i)))
+    vals.append(int("80" * n, 16))
+    vals.append(int("ff" * n, 16))
+    vals.append(int("".join("%02x" % (0x81 + i) for i in range(n)), 16))
+    bad = []
+    explicit = all(isinstance(o[3], int) for o in run)
+    for v in vals:
+        env = {dv["referencedDecl"]["id"]: FD.wrap(v, ct)}
+        out = {}
+        for k, o in enumerate(run):
+            st = A.strip(o[4])
+            ev = FD.Eval(env=dict(env))
+            byte = ev.ev(A.kids(st)[1]) & 0xff
+            out[o[3] - run[0][3] if explicit else k] = byte
+        got = [out.get(k) for k in range(n)]
+        exp = [(v >> (8 * (n - 1 - k))) & 0xff for k in range(n)]
+        if got != exp:
+            bad.append({"value": "%x" % v, "bytes_written": ["%02x" % (b if b is not None else 0) for b in got], "expected": ["%02x" % b for b in exp]})
+    return bad, len(vals)
+
+
+def check_values(run):
+    if run[0][0] == "load":
+        return eval_load_run(run)
+    return eval_store_run(run)
